@@ -167,6 +167,14 @@ def explore(ctx, res):
     rng = ctx["rng"]
     tier = "thorough" if ctx["deep"] else ctx["tier"]
     stats = {"flaky": 0, "unconfirmed": 0, "validated": 0}
+    if ctx.get("replay") and json.load(open(ctx["replay"])).get("engine") == "cache":
+        c = json.load(open(ctx["replay"]))
+        rc, outs, e = core.run_lines(os.path.join(core.BUILD, "verifh"), ["cache"], c["ops"])
+        r = cache_oracle(c["ops"], outs)
+        if r:
+            res.report("cache|len-not-distinct-count", {"engine": "cache", "kind": "impl-violates", "ops": c["ops"], "observed": outs, "oracle": r[0]})
+        res.cov.update(evaluations=len(c["ops"]), rule="replay of one cache-engine sequence")
+        return
     if ctx.get("replay"):
         c = json.load(open(ctx["replay"]))
         seqs = [agg.Seq(c["ops"], {})]
@@ -175,7 +183,7 @@ def explore(ctx, res):
         for f in sorted(glob.glob(os.path.join(core.VERIF, "corpus", ID, "*.json"))):
             seqs.append(agg.Seq(json.load(open(f))["ops"], {}))
         seqs += gen_all(rng, tier)
-    n_cache, v_cache, cache_bad = cache_part(ctx, res, 150 if tier == "quick" else 3000)
+    n_cache, v_cache, cache_bad = (0, 0, False) if ctx.get("replay") else cache_part(ctx, res, 150 if tier == "quick" else 3000)
     if cache_bad and any(f for _, f in res.violations):
         seqs = seqs[:4]   # a failing input is already in hand; keep the evidence run short
     agg.run_impl(seqs)
